@@ -24,7 +24,8 @@ EmitOn == "OUT" \in DOMAIN IOEnv
 
 Body(n, salt) == [i \in 1 .. n |-> (i * 7 + (i \div 251) + salt * 13) % 256]
 Seg == << 116 >>                                         \* Uri-Path "t"
-Tok(n) == << (n * 17) % 256, n % 256 >>
+\* token length varies from request to request (0..2 bytes, so the overhead bound stays valid)
+Tok(n) == [i \in 1 .. (n % 3) |-> (n * 17 + i) % 256]
 
 MkReq(code, mid, b1, b2, pay) ==
   LET o1 == << << OPT_URI_PATH, << Seg >> >> >>
@@ -55,16 +56,19 @@ UlAbandon == IF Full THEN 0 .. 6 ELSE { 0, 1, 3 }
 VARIABLES cfg, st, pc, asm, app, nextB2, mid, blocks, viol, shaped, h, delivered, idx, rep
 vars == << cfg, st, pc, asm, app, nextB2, mid, blocks, viol, shaped, h, delivered, idx, rep >>
 
+\* a transfer that starts without a Block2 option may find an unfinished earlier transfer of
+\* another body cached for the same key (C08's quantifier): pre = blocks fetched of that one
 InitDl ==
-  /\ \E len \in DlLens, room \in DlRooms, pref \in DlPrefs, red \in DlReduce, set \in DlSets :
-       cfg = [mode |-> "dl", body |-> Body(len, 1), M |-> Min2(1280, Max2(RespNP(set), ReqNP) + room), pref |-> pref,
-              reduce |-> red, set |-> set]
+  /\ \E len \in DlLens, room \in DlRooms, pref \in DlPrefs, red \in DlReduce, set \in DlSets, pre \in { 0, 1, 2 } :
+       /\ (pre > 0 => ~pref.some)
+       /\ cfg = [mode |-> "dl", body |-> Body(len, 1), other |-> Body(100, 5), pre |-> pre,
+                 M |-> Min2(1280, Max2(RespNP(set), ReqNP) + room), pref |-> pref, reduce |-> red, set |-> set]
   /\ nextB2 = IF cfg.pref.some THEN Some([num |-> 0, more |-> FALSE, szx |-> cfg.pref.v]) ELSE None
-  /\ pc = "send"
+  /\ pc = IF cfg.pre > 0 THEN "pre" ELSE "send"
 
 InitUl ==
   /\ \E len \in UlLens, szx \in UlSzx, dups \in UlDups, ab \in UlAbandon :
-       cfg = [mode |-> "ul", body |-> Body(len, 2), other |-> Body(7 * SizeOf(szx) + 5, 9), szx |-> szx, dups |-> dups, abandon |-> ab,
+       cfg = [mode |-> "ul", pre |-> 0, body |-> Body(len, 2), other |-> Body(7 * SizeOf(szx) + 5, 9), szx |-> szx, dups |-> dups, abandon |-> ab,
               M |-> NonPayload(MkReq(3, 1, Some([num |-> 300, more |-> TRUE, szx |-> szx]), None, << >>)) + 12 + SizeOf(szx) + 40]
   /\ nextB2 = None
   /\ pc = IF cfg.abandon > 0 THEN "abandon" ELSE "upload"
@@ -118,7 +122,7 @@ Receive(reply, entry, x, sh, stepj) ==
      ELSE /\ asm' = asm \o reply.pay
           /\ viol' = viol \o BlockChecks(reply, reply)
           /\ IF fb.v.more
-             THEN LET szx == IF cfg.reduce /\ blocks = 0 /\ fb.v.szx > 0 THEN 0 ELSE fb.v.szx IN
+             THEN LET szx == IF cfg.reduce /\ blocks = cfg.pre /\ fb.v.szx > 0 THEN 0 ELSE fb.v.szx IN
                   /\ pc' = "send"
                   /\ nextB2' = Some([num |-> Len(asm') \div SizeOf(szx), more |-> FALSE, szx |-> szx])
              ELSE pc' = "after" /\ nextB2' = None
@@ -151,13 +155,32 @@ DlSend ==
                        /\ z.out.k = "ok"
                        /\ Receive(z.resp.v, z.st, z, shaped /\ z = y, Step(req, AppJson))
 
+\* the earlier, abandoned transfer: cfg.pre exchanges of another body with other options
+DlPre ==
+  /\ pc = "pre"
+  /\ LET req == MkReq(1, mid, None, nextB2, << >>)
+         x == InterceptRequest(st, req, cfg.M)
+         otherApp == [some |-> TRUE, v |-> [code |-> 69, pay |-> cfg.other, opts |-> << << 4, << << 9, 9 >> >> >> >>]]
+         y == IF x.out = OkR(FALSE) /\ x.resp.some
+              THEN InterceptResponse(x.st, Some([x.resp.v EXCEPT !.code = 69, !.pay = cfg.other, !.opts = << << 4, << << 9, 9 >> >> >> >>]), cfg.M)
+              ELSE x
+         fb == IF y.resp.some THEN FirstBlock(y.resp.v, OPT_BLOCK2) ELSE None IN
+     /\ st' = y.st /\ mid' = mid + 1 /\ h' = Append(h, Step(req, otherApp)) /\ blocks' = blocks + 1
+     /\ IF blocks + 1 < cfg.pre /\ fb.some /\ fb.v.more
+        THEN pc' = "pre" /\ nextB2' = Some([num |-> fb.v.num + 1, more |-> FALSE, szx |-> fb.v.szx])
+        ELSE pc' = "send" /\ nextB2' = None
+     /\ UNCHANGED << cfg, asm, app, viol, shaped, delivered, idx, rep >>
+
 \* after the final block the entry is released: the next request reaches the application
 DlAfter ==
   /\ pc = "after"
   /\ LET req == MkReq(1, mid, None, None, << >>)
          x == InterceptRequest(st, req, cfg.M) IN
      /\ viol' = viol \o Check(x.out = OkR(FALSE), "request after the final block did not reach the application")
-                     \o Check(~st.cached.some, "cache entry not released after the final block")
+                     \* the entry of THIS transfer is released; an unfinished earlier transfer whose entry this
+                     \* (unfragmented) transfer never replaced stays until it expires (C20)
+                     \o Check(~st.cached.some \/ (cfg.pre > 0 /\ st.cached.v.pay = cfg.other /\ blocks = cfg.pre + 1),
+                              "cache entry not released after the final block")
      /\ pc' = "done" /\ st' = x.st /\ h' = Append(h, Step(req, NoApp)) /\ mid' = mid + 1
      /\ UNCHANGED << cfg, asm, app, nextB2, blocks, shaped, delivered, idx, rep >>
 
@@ -205,7 +228,7 @@ UlSend ==
              /\ st' = y.st /\ pc' = "done" /\ idx' = idx /\ rep' = rep
              /\ h' = Append(h, Step(req, [some |-> TRUE, v |-> [code |-> 68, pay |-> << >>, opts |-> << >>]]))
 
-Next == IF Mode = "dl" THEN DlSend \/ DlAfter ELSE UlAbandonStep \/ UlSend
+Next == IF Mode = "dl" THEN DlPre \/ DlSend \/ DlAfter ELSE UlAbandonStep \/ UlSend
 Spec == Init /\ [][Next]_vars /\ WF_vars(Next)
 
 (* ------------------------------ properties ----------------------------------------- *)
